@@ -2,8 +2,8 @@
 # usage: tools/tryseed.sh <patch.diff> <prop> [<prop>...] : applies the patch to /repo, runs the checks, reverts.
 P="$1"; shift
 git -C /repo diff --quiet || { echo "/repo not clean"; exit 3; }
-git -C /repo apply "$P" || { echo "patch does not apply"; exit 3; }
+git -C /repo apply "$P" 2>/dev/null || (cd /repo && patch -p1 -s --fuzz=3 < "$P") || { echo "patch does not apply"; git -C /repo checkout -- .; exit 3; }
 for id in "$@"; do
   (cd /verif && ./check "$id" --no-evidence 2>&1 | grep -E "^\[|FINDING|VIOLATION|ANALYSIS-ERROR|KNOWN|^    " | head -${LINES_MAX:-14}); echo "  -> exit of $id: $?"
 done
-git -C /repo checkout -- . ; git -C /repo status --short | head -3
+git -C /repo checkout -- . ; git -C /repo clean -fdq -- src; git -C /repo status --short | head -3
